@@ -58,6 +58,8 @@ const char *className(Handler::HandlerType t)
 
 } // namespace
 
+static int g_sequences = 0;
+
 int main(int argc, char **argv)
 {
     if (argc < 2) {
@@ -87,8 +89,14 @@ int main(int argc, char **argv)
             o["seq"] = QString::fromLatin1(line);
             out.put(o);
         }
+        // every other sequence, the caller keeps the list it was given by handlers() until it asks again (a view, an
+        // inspector): the pipeline's list is then implicitly shared while the next call modifies it
+        const bool holdCopies = (++g_sequences % 2) == 0;
+        QList<HandlerPtr> held;
         auto snapshot = [&]() {
             QJsonArray a;
+            if (holdCopies)
+                held = static_cast<const SortedPipeline &>(pl).handlers();
             for (const auto &h : static_cast<const SortedPipeline &>(pl).handlers()) {
                 QJsonObject e;
                 e["c"] = className(h->type());
